@@ -373,6 +373,11 @@ type authenticatedHTTP struct {
 func (a *authenticatedHTTP) RoundTrip(r *http.Request) (*http.Response, error) {
 
 	if cred := a.auth[r.URL.Hostname()]; cred != "" {
+		// a RoundTripper must not modify the caller's request: the poll loop
+		// reuses one request, and net/http copies the headers of the original
+		// request to redirect targets on sub-domains, which would carry the
+		// credential to hosts it was not configured for
+		r = r.Clone(r.Context())
 		r.Header.Set("Authorization", cred)
 	}
 
